@@ -583,23 +583,43 @@ func ruleP07ErrMerge(p *Prog, r *Report) {
 			appended[strip(c.Common().Args[0])] = true
 		}
 	}
-	// outer mapParse calls
+	// outer mapParse calls (a local function of the merge counts once per call of it)
 	nOuter := 0
-	for _, c := range callsTo(parse, mapParse) {
+	outer := virtualCallsTo(parse, mapParse)
+	{
+		var own []vcall
+		for _, vc := range outer {
+			top := vc.call.Parent()
+			if len(vc.chain) > 0 {
+				top = vc.chain[0].Parent()
+			}
+			if top == parse {
+				own = append(own, vc)
+			}
+		}
+		outer = own
+	}
+	for _, vc := range outer {
+		c := vc.call
 		nOuter++
-		e := resultOf(c, 3)
 		key := fmt.Sprintf("mapParse#%d", nOuter)
-		r.check(e != nil && appended[strip(e)], rule, key, p.instrPos(c), "the errors of this mapParse call are appended to the merged list", "the errors of this mapParse call never reach the merged error list")
-		// the text left over after the last batch is parsed whatever it looks like (the serial
-		// parser has no notion of "nothing worth parsing" other than the empty text)
-		if !inLoopBlock(c.Block()) {
+		vc.run(func() {
+			e := resultOf(c, 3)
+			r.check(e != nil && appended[strip(e)], rule, key, p.instrPos(c), "the errors of this mapParse call are appended to the merged list", "the errors of this mapParse call never reach the merged error list")
+			// the text left over after the last batch is parsed whatever it looks like (the serial
+			// parser has no notion of "nothing worth parsing" other than the empty text)
+			if inLoopBlock(vc.where()) {
+				return
+			}
 			why := ""
 			common := map[ssa.Value]bool{} // conditions that hold for the whole merge alike
-			for _, c2 := range callsTo(parse, mapParse) {
-				if inLoopBlock(c2.Block()) {
-					for _, g := range guardsOf(c2.Block()) {
-						common[g.Cond] = true
-					}
+			for _, vc2 := range outer {
+				if inLoopBlock(vc2.where()) {
+					vc2.run(func() {
+						for _, g := range guardsOf(vc2.call.Block()) {
+							common[g.Cond] = true
+						}
+					})
 				}
 			}
 			for _, g := range guardsOf(c.Block()) {
@@ -612,7 +632,7 @@ func ruleP07ErrMerge(p *Prog, r *Report) {
 				why = g.Cond.String()
 			}
 			r.check(why == "", rule, key+":unconditional", p.instrPos(c), "the final carried text is always parsed", "the text carried past the last batch is parsed only under a condition ("+why+"): when it does not hold, that text — which the serial parser would parse, and report if faulty — is neither parsed nor returned as a block")
-		}
+		})
 		// and its values / blocks reach the merged values / blocks
 	}
 	// worker: result.errs derives from its mapParse's errors; merged via flatten(result.errs)
@@ -653,37 +673,17 @@ func ruleP07ErrMerge(p *Prog, r *Report) {
 		}
 	}
 	// P07-merge-order: within the merge loop, carry results are appended before the batch's own
-	var carryApp, batchApp ssa.Instruction
-	for _, a := range apps {
-		if len(a.Call.Args) < 2 || !inLoopBlock(a.Block()) {
-			continue
-		}
+	okOrder := carryBeforeBatch(parse, apps, func(a *ssa.Call) (bool, bool) {
 		if c, ok := isCallTo(a.Call.Args[1], flat, 0); ok {
 			arg := strip(c.Common().Args[0])
 			if _, fld := fieldLoad(arg); fld == "errs" {
-				batchApp = a
+				return false, true
 			} else if mc, idx := callOf(arg); mc != nil && idx == 3 && sameFn(staticCallee(mc), mapParse) {
-				carryApp = a
+				return true, false
 			}
 		}
-	}
-	okOrder := false
-	if carryApp != nil && batchApp != nil {
-		var header *ssa.BasicBlock
-		for _, g := range guardsOf(batchApp.Block()) {
-			if isLoopGuard(g) {
-				header = g.If.Block()
-				break
-			}
-		}
-		if header != nil {
-			if carryApp.Block() == batchApp.Block() {
-				okOrder = instrIndex(carryApp) < instrIndex(batchApp)
-			} else {
-				okOrder = reachableWithout(carryApp.Block(), batchApp.Block(), header) && !reachableWithout(batchApp.Block(), carryApp.Block(), header)
-			}
-		}
-	}
+		return false, false
+	})
 	r.check(okOrder, "P07-merge-order", "errors", p.pos(parse.Pos()), "errors of the carried text precede the batch's own errors", "the merge does not append the carried text's errors before the batch's own errors")
 }
 
@@ -1037,4 +1037,55 @@ func (p *Prog) parseOneOf(v ssa.Value) *ssa.Function {
 		return nil
 	}
 	return found
+}
+
+// carryBeforeBatch: of the appends apps of one accumulator of the merge, the one inside the merge
+// loop that kind classifies as "carry" runs before the one classified as "batch" in every
+// iteration. The position of an append is its own, or — when it sits in a local function or
+// private helper of the merge — that of the call through which it is entered.
+func carryBeforeBatch(parse *ssa.Function, apps []*ssa.Call, kind func(a *ssa.Call) (carry, batch bool)) bool {
+	var carryApp, batchApp ssa.Instruction
+	isApp := map[ssa.Instruction]bool{}
+	for _, a := range apps {
+		isApp[a] = true
+	}
+	for _, vi := range virtualInstrs(parse) {
+		a, isCall := vi.in.(*ssa.Call)
+		if !isCall || !isApp[a] || len(a.Call.Args) < 2 {
+			continue
+		}
+		var at ssa.Instruction = a
+		if len(vi.chain) > 0 {
+			at = vi.chain[0]
+		}
+		if !inLoopBlock(at.Block()) {
+			continue
+		}
+		vi.run(func() {
+			c, b := kind(a)
+			if c {
+				carryApp = at
+			}
+			if b {
+				batchApp = at
+			}
+		})
+	}
+	if carryApp == nil || batchApp == nil {
+		return false
+	}
+	var header *ssa.BasicBlock
+	for _, g := range guardsOf(batchApp.Block()) {
+		if isLoopGuard(g) {
+			header = g.If.Block()
+			break
+		}
+	}
+	if header == nil {
+		return false
+	}
+	if carryApp.Block() == batchApp.Block() {
+		return instrIndex(carryApp) < instrIndex(batchApp)
+	}
+	return reachableWithout(carryApp.Block(), batchApp.Block(), header) && !reachableWithout(batchApp.Block(), carryApp.Block(), header)
 }
